@@ -193,7 +193,7 @@ class RefTerm:
         elif final == "C":
             self.x = min(self.cols - 1, self.x + n1)
             self.pending = False
-        elif final == "K" and (not nums or nums == [0]):
+        elif final == "K" and not nums:
             bg = self.attr[4:8] if self.bce else DEF_COL
             er = (32, 1, 0, DEF_COL + bg + (0,))
             row = self.grid[self.y]
@@ -812,11 +812,99 @@ class C04(core.Check):
         return res
 
     # ---------- wire ----------
+    @staticmethod
+    def spec_ints(kind, sp):
+        fl = 0
+        for bit, name in ((1, "bold"), (2, "italics"), (4, "underline"), (8, "blink"), (16, "standout"), (32, "strikethrough")):
+            if getattr(sp, name):
+                fl |= bit
+
+        def col(true, high, basic, num, rgb):
+            if true:
+                return [3, num] + list(rgb)
+            if high:
+                return [2, num, 0, 0, 0]
+            if basic:
+                return [1, num, 0, 0, 0]
+            return [0, num, 0, 0, 0]
+        rgb = sp.get_rgb_values() if (sp.foreground_true or sp.background_true) else (0,) * 6
+        rgb = [v if v is not None else 0 for v in rgb]
+        return ([kind] + col(sp.foreground_true, sp.foreground_high, sp.foreground_basic, sp.foreground_number, rgb[0:3])
+                + col(sp.background_true, sp.background_high, sp.background_basic, sp.background_number, rgb[3:6]) + [fl])
+
     def encode(self, case):
-        return None
+        """history -> ints for sub-model 1 of DrawScreen.run_case (built from the canvases actually drawn)"""
+        from urwid.display.common import AttrSpec
+        _res, aux = self.history(case)
+        scr = aux["screen"]
+        wof = width_fn(case["enc"])
+        enc = case["enc"]
+        table = [None]
+        frames = []
+        for fr, rec in zip(case["frames"], aux["frames"]):
+            op = rec["op"]
+            if op == "clear":
+                k = fr.get("scramble")
+                frames.append([2, -1 if k is None else k])
+            elif op == "winch":
+                frames.append([3])
+            elif op == "ack":
+                frames.append([4])
+            else:
+                k = fr.get("scramble")
+                f = [1, rec["cols"], rec["rows"], rec["rows"] + (1 if fr.get("badrows") else 0), -1 if k is None else k,
+                     1 if rec["same"] else 0]
+                cur = rec["cursor"]
+                f += [0] if cur is None else [1, cur[0], cur[1]]
+                content = rec["content"]
+                if content is None:
+                    content = [list(r) for r in rec["canvas"].content()]
+                f.append(len(content))
+                for row in content:
+                    f.append(len(row))
+                    for a, cs, run in row:
+                        chars = run.decode(enc, "replace")
+                        f += [intern_attr(a, table), CS_CODE[cs], len(chars)]
+                        for ch in chars:
+                            f += [ord(ch), wof(ch)]
+                frames.append(f)
+        default = AttrSpec("default", "default")
+        tab = []
+        for a in table:
+            try:
+                registered = a in scr._pal_escape
+            except TypeError:
+                registered = False
+            if registered:
+                tab += self.spec_ints(0, scr._pal_attrspec[a])
+            elif isinstance(a, AttrSpec):
+                tab += self.spec_ints(1, a)
+            else:
+                tab += self.spec_ints(2, default)
+        out = [1, int(enc == "utf-8"), int(bool(case["bce"])), int(bool(case["bib"])), int(bool(case.get("bbb"))),
+               int(bool(case.get("partial"))), case.get("origin", 0) if case.get("partial") else 0, len(table)] + tab
+        out.append(len(frames))
+        for f in frames:
+            out += f
+        return out
 
     def decode(self, case, ints):
-        return {"malformed": ints[:40]}
+        it = iter(ints)
+        frames = []
+        try:
+            for _ in case["frames"]:
+                err = next(it)
+                n = next(it)
+                toks = [next(it) for _ in range(n)]
+                n = next(it)
+                term = [next(it) for _ in range(n)]
+                fo = {"toks": toks, "term": term}
+                if err:
+                    fo["err"] = {1: "IndexError", 2: "ValueError", 3: "TypeError"}.get(err, "error%d" % err)
+                frames.append(fo)
+        except StopIteration:
+            return {"malformed": ints[:40]}
+        return {"frames": frames}
 
     # ---------- oracle ----------
     def oracle(self, case, res):
@@ -1073,6 +1161,26 @@ class C04(core.Check):
         finally:
             urwid.set_encoding("utf-8")
 
+    UNDEF_IDS = [i for i, a in enumerate(ATTRS) if a and a[0] == "undef"]
+
+    def uses_undef(self, cv):
+        if cv[0] in ("rows", "textcanvas"):
+            return any(r[0] in self.UNDEF_IDS for row in cv[1] for r in row)
+
+        def walk(sp):
+            if sp[0] == "text":
+                return any(a in self.UNDEF_IDS for a, _s in sp[1])
+            if sp[0] == "attr":
+                return sp[1] in self.UNDEF_IDS or walk(sp[2])
+            if sp[0] == "filler":
+                return walk(sp[2])
+            if sp[0] in ("cols", "pile"):
+                return any(walk(x) for x in sp[1])
+            if sp[0] == "linebox":
+                return walk(sp[1])
+            return False
+        return walk(cv[1])
+
     def gen_cursor(self, rng, cols, rows, p=0.5):
         if rng.random() >= p:
             return None
@@ -1128,7 +1236,7 @@ class C04(core.Check):
             f["cursor"] = cur
             if f["canvas"][0] == "widget":
                 f["cursor"] = cur
-            if rng.random() < 0.5:
+            if rng.random() < 0.5 and (not self.uses_undef(f["canvas"]) or rng.random() < 0.03):
                 f["html"] = 1
             if extra:
                 f.update(extra)
